@@ -186,10 +186,12 @@ def guard1(ctx, prog, cfg):
             found = [s for s in mir.walk(e) if isinstance(s, tuple) and s and s[0] == "call" and "index_mut" in str(s[1])]
             for s in found:
                 a = s[2]
-                base_ok = any(isinstance(x, tuple) and x[0] == "load" and x[2] == ("dst",) for x in mir.walk(a[0]))
+                def _fld(x, name):   # `self.name` read directly, or through the destructuring `let Self { name, .. } = self`
+                    return isinstance(x, tuple) and len(x) >= 3 and x[0] in ("load", "place") and tuple(x[2]) == (name,)
+                base_ok = any(_fld(x, "dst") for x in mir.walk(a[0]))
                 rng = a[1] if len(a) > 1 else None
                 rng_ok = (isinstance(rng, tuple) and rng[0] == "agg" and rng[1].endswith("RangeTo")
-                          and any(isinstance(x, tuple) and x[0] == "load" and x[2] == ("initialized",) for x in mir.walk(rng)))
+                          and any(_fld(x, "initialized") for x in mir.walk(rng)))
                 if base_ok and rng_ok:
                     ok = True
             why = "drop_in_place argument is `%s`" % mir.fmt(e, g)
